@@ -1,4 +1,5 @@
 import Driver.Loop
+import ElaVerif.Model.PolicyCtx
 import ElaVerif.Model.Frozen
 import ElaVerif.Model.CCPolicy
 open ElaVerif.Frozen Driver
@@ -40,6 +41,36 @@ def exploitHash : String := "21f69ec3b64fbeb6f690d3c8e2798b802f0ce5e26e"
 def runes? (s : String) : Option (List Nat) :=
   if s = "-" then some [] else (s.splitOn ",").mapM nat?
 
+def ctxEntry? (s : String) : Option ElaVerif.Frozen.Entry :=
+  match s.splitOn ":" with
+  | [l, st] => match l.toList, Driver.nat? st with
+    | [c], some st => some ⟨if c = 'n' then none else some c.toNat, st⟩
+    | _, _ => none
+  | _ => none
+
+def ctxLetters (s : String) : List Nat := if s = "-" then [] else s.toList.map Char.toNat
+
+def fmtCtx : ElaVerif.PolicyCtx.Res → String
+  | .passed => "passed"
+  | .cc .ok => "passed"
+  | .cc .frozen => "cc frozen"
+  | .cc .badWithdrawVer => "cc wver"
+  | .cc .notBridgeTx => "cc nottype"
+  | .cc .notLegacyReturn => "cc notlegacy"
+  | .cc .mixedReturn => "cc mixed"
+  | .fz .ok => "passed"
+  | .fz (.spend i) => s!"fz spend {i}"
+  | .fz (.receive i) => s!"fz receive {i}"
+
+def stepCtx : List String → Option String
+  | ["ctx", ty, ver, h, f, r, es, ins, outs] =>
+      match Driver.nat? ty, Driver.nat? ver, Driver.nat? h, Driver.nat? f, Driver.nat? r,
+            (if es = "-" then some [] else (es.splitOn ",").mapM ctxEntry?) with
+      | some ty, some ver, some h, some f, some r, some es =>
+          some (fmtCtx (ElaVerif.PolicyCtx.contextPolicies ty ver h f r es (ctxLetters ins) (ctxLetters outs)))
+      | _, _, _, _, _, _ => some "bad-op"
+  | _ => none
+
 def stepC32 : List String → String
   | ["chk", h, es, ins, outs] =>
       match nat? h, entries? es with
@@ -64,4 +95,4 @@ def stepC32 : List String → String
       | _, _ => "bad-op"
   | _ => "bad-op"
 
-def main : IO Unit := runPure stepC32
+def main : IO Unit := runPure (fun t => (stepCtx t).getD (stepC32 t))
